@@ -24,7 +24,9 @@ SPEC = dict(
                 "strings synthesised (regexp/syntax) to match the regexp sources read from analysis/tokenizer and analysis/char, "
                 "embedded between case-length-changing runes / invalid bytes, for every regexp-driven component; "
                 "TokenFrequencies.MergeAll and composite fields: merged map and every source map after the merge compared with the "
-                "model (CMerge), sources unchanged / merged = sum checked on Document.Analyze with a composite field."),
+                "model (CMerge), sources unchanged / merged = sum checked on Document.Analyze with a composite field; retained-result-after-reuse: for "
+                "every analyzer / tokenizer / filter / char-filter instance a result kept from a completed call must not change when the "
+                "same instance runs on other text (incl. two fields and two documents sharing one analyzer instance)."),
     trust=["the goextract section that turns the switch of foldToASCII and the kana tables of cjk_width.go into Coq lists",
            "unicode tables (IsLetter, IsSpace, IsLower, IsUpper, IsNumber, ToLower, Mn/Me/Mc) and TokenMap contents are parameters of the model, tabulated by the "
            "harness per case", "Base/UTF8.v models unicode/utf8 (Go standard library)"],
